@@ -391,6 +391,31 @@ pub fn ed25519_accepts() {
     kani::assert(!world().overflow, "MODEL-OVERFLOW: flag set");
 }
 
+// ---------------------------------------------------------------- webauthn::verify (needs `-Z stubbing`: feature utf8stub)
+/// Stub for `core::str::from_utf8` (called by the JSON parser on every string). The real one reads the
+/// slice word-wise after `align_offset`, whose result depends on the (symbolic) address of the buffer: the
+/// bounded model checker then loses the position inside the string and every loop runs to the unwinding bound.
+/// OVER-APPROXIMATION: pure ASCII is valid UTF-8 (always Ok, as the real function); for anything else the stub
+/// answers Ok or Err arbitrarily, so every behaviour of the real function is included.
+pub fn from_utf8_stub(v: &[u8]) -> Result<&str, core::str::Utf8Error> {
+    let mut ascii = true;
+    let mut i = 0;
+    while i < v.len() {
+        ascii &= v[i] < 128;
+        i += 1;
+    }
+    if ascii || kani::any() {
+        Ok(unsafe { core::str::from_utf8_unchecked(v) })
+    } else {
+        // (the parser maps every error to JsonParseError without looking at it)
+        Err(unsafe { core::mem::zeroed() })
+    }
+}
+
+#[cfg(feature = "utf8stub")]
+pub mod wa {
+use super::*;
+
 // ---------------------------------------------------------------- webauthn::verify on client-data templates
 /// authenticator data of exactly AD bytes (>= 37), all symbolic
 pub const AD: usize = 37;
@@ -464,6 +489,7 @@ fn verify_post(e: &Env, r: bool, a: &Assertion, ty: &[u8; 12], ch: &[u8; 43]) {
 macro_rules! webauthn_template {
     ($name:ident, $accepts:ident, $unw:expr, $len:expr, $build:expr) => {
         #[kani::proof]
+        #[kani::stub(core::str::from_utf8, crate::verifiers::from_utf8_stub)]
         #[kani::unwind($unw)]
         pub fn $name() {
             let e = Env::default();
@@ -480,6 +506,7 @@ macro_rules! webauthn_template {
         }
         /// well-formed assertion + accepting oracle => accepted
         #[kani::proof]
+        #[kani::stub(core::str::from_utf8, crate::verifiers::from_utf8_stub)]
         #[kani::unwind($unw)]
         pub fn $accepts() {
             let e = Env::default();
@@ -603,6 +630,7 @@ macro_rules! webauthn_doc_ok {
     ($name:ident, $accepts:ident, $which:expr) => {
         /// true => payload is the one named by the challenge, flags fine, oracle asked exactly (key, digest, signature)
         #[kani::proof]
+        #[kani::stub(core::str::from_utf8, crate::verifiers::from_utf8_stub)]
         #[kani::unwind(200)]
         pub fn $name() {
             let e = Env::default();
@@ -630,6 +658,7 @@ macro_rules! webauthn_doc_ok {
         }
         /// genuine, well-formed assertion + accepting oracle => accepted
         #[kani::proof]
+        #[kani::stub(core::str::from_utf8, crate::verifiers::from_utf8_stub)]
         #[kani::unwind(200)]
         pub fn $accepts() {
             let e = Env::default();
@@ -650,6 +679,7 @@ macro_rules! webauthn_doc_ok {
 macro_rules! webauthn_doc_bad {
     ($name:ident, $which:expr, $clause:literal) => {
         #[kani::proof]
+        #[kani::stub(core::str::from_utf8, crate::verifiers::from_utf8_stub)]
         #[kani::unwind(200)]
         pub fn $name() {
             let e = Env::default();
@@ -670,6 +700,7 @@ webauthn_doc_bad!(webauthn_doc_duplicate_type, 7, "C18.webauthn.verify.duplicate
 
 /// document 4 names another payload: accepted only for THAT payload, never for doc_payload()
 #[kani::proof]
+#[kani::stub(core::str::from_utf8, crate::verifiers::from_utf8_stub)]
 #[kani::unwind(200)]
 pub fn webauthn_doc_other_challenge() {
     let e = Env::default();
@@ -688,6 +719,7 @@ pub fn webauthn_doc_other_challenge() {
 
 /// the oracle rejects => never accepted; authenticator data shorter than 37 bytes => never accepted
 #[kani::proof]
+#[kani::stub(core::str::from_utf8, crate::verifiers::from_utf8_stub)]
 #[kani::unwind(200)]
 pub fn webauthn_doc_oracle_rejects() {
     let e = Env::default();
@@ -698,6 +730,7 @@ pub fn webauthn_doc_oracle_rejects() {
     prop!(false, "C18.webauthn.verify.invalid_signature_never_accepted");
 }
 #[kani::proof]
+#[kani::stub(core::str::from_utf8, crate::verifiers::from_utf8_stub)]
 #[kani::unwind(200)]
 pub fn webauthn_doc_short_auth_data() {
     let e = Env::default();
@@ -708,4 +741,5 @@ pub fn webauthn_doc_short_auth_data() {
     witness!(n == 36, "reached_call_36");
     let _ = webauthn::verify(&e, &a.payload, &a.pub_key, &a.sig);
     prop!(false, "C18.webauthn.verify.authenticator_data_below_37_bytes_never_accepted");
+}
 }
